@@ -521,6 +521,16 @@ pub fn check(case: &Case, ch: &mut Chooser, ctx: &mut CaseCtx) -> Result<(), Str
 }
 
 pub fn reopen_snapshot(snap: &BTreeMap<String, Vec<u8>>) -> Result<SeqState, String> {
+    let (st, idx) = reopen_snapshot_parts(snap)?;
+    match idx {
+        Some(e) => Err(e),
+        None => Ok(st),
+    }
+}
+
+/// The recovered documents, and separately the outcome of the index observation over them
+/// (callers that classify a failure need the documents even when the indexes disagree).
+pub fn reopen_snapshot_parts(snap: &BTreeMap<String, Vec<u8>>) -> Result<(SeqState, Option<String>), String> {
     use object_store::{ObjectStoreExt, PutPayload, path::Path};
     vf_core::block_on(async {
         let mem = Arc::new(InMemory::new());
@@ -535,8 +545,8 @@ pub fn reopen_snapshot(snap: &BTreeMap<String, Vec<u8>>) -> Result<SeqState, Str
             let d = col.get(id).await.map_err(|e| format!("flush snapshot: document {id} unreadable: {e}"))?;
             st.docs.insert(id, doc_fields(&d));
         }
-        check_indexes(&col, &st.docs, &idx, "flush snapshot reopened").await?;
-        Ok(st)
+        let ix = check_indexes(&col, &st.docs, &idx, "flush snapshot reopened").await.err();
+        Ok((st, ix))
     })
 }
 
